@@ -58,7 +58,15 @@ class RealStore:
         t.n_descent = npts - 2 * (npts // 3)
         t.flight_id = fid
         if extra:
+            from AEIC.types import Species, SpeciesValues
+
             t.x1 = ar * 2.0 + base
+            # species-indexed value: the species dimension of a file is fixed by its first trajectory ({CO2, H2O} here);
+            # bad='species' carries a species outside it and must be refused without side effects
+            if bad == 'species':
+                t.xs = SpeciesValues({Species.CO2: base, Species.NOx: base + 0.25})
+            else:
+                t.xs = SpeciesValues({Species.CO2: base, Species.H2O: base + 0.5})
         if bad == 'missing_required':
             t._data['starting_mass'] = None
         return t
@@ -146,7 +154,10 @@ def register_extra_fieldset():
     from AEIC.storage import FieldMetadata, FieldSet
 
     if not FieldSet.known('c07_extra'):
-        FieldSet('c07_extra', x1=FieldMetadata(description='verification extra field', units='1'))
+        from AEIC.storage import Dimensions
+
+        FieldSet('c07_extra', x1=FieldMetadata(description='verification extra field', units='1'),
+                 xs=FieldMetadata(dimensions=Dimensions.from_abbrev('TS'), description='verification species field', units='g'))
 
 
 _NBYTES_CACHE: dict = {}
@@ -162,7 +173,7 @@ def item_json(store: 'RealStore', op: dict) -> dict:
         'bytes': _NBYTES_CACHE[key],
         'fid': op.get('fid'),
         'fs': 1 if op.get('extra', False) else 0,
-        'complete': op.get('bad') != 'missing_required',
+        'complete': op.get('bad') not in ('missing_required', 'species'),
     }
 
 
